@@ -182,7 +182,12 @@ def _worker(job):
     src = gen_module(rng, helper)
     modname = 'xdverif_c16_m%d' % idx
     path = os.path.join(d, modname + '.py')
-    open(path, 'w').write(src)
+    # how the file is saved: plain UTF-8, with a byte-order mark (editors on Windows write it), with CRLF line ends, with a coding cookie
+    saved = ['plain', 'plain', 'bom', 'crlf', 'bom+crlf', 'cookie'][idx % 6]
+    if saved == 'cookie':
+        src = '# -*- coding: utf-8 -*-\n' + src
+    with open(path, 'w', encoding='utf-8-sig' if 'bom' in saved else 'utf-8', newline='\r\n' if 'crlf' in saved else None) as f:
+        f.write(src)
     problems = []
     sys.path.insert(0, d)
     try:
